@@ -111,7 +111,7 @@ class View:
             elif k == "bcast" and not e["dup"]:
                 ins = [tuple(x) for x in e["ins"]]
                 self.txs[e["tx"]] = {"by": e["by"], "ins": ins, "chan": [i for i, w in zip(ins, e["wal"]) if not w],
-                                     "ok": e["valid"] and e["final"], "sweep": False, "nout": len(e["outs"])}
+                                     "ok": e["valid"] and e["final"], "sweep": False, "nout": len(e["outs"]), "bh": e["h"]}
             elif k == "sweep" and e["ok"]:
                 ins = [tuple(x) for x in e["ins"]]
                 self.txs[e["tx"]] = {"by": e["node"], "ins": ins, "chan": ins, "ok": True, "sweep": True, "nout": 1}
@@ -194,6 +194,18 @@ class View:
                 res.append(((c["tx"], r["v"]), r, outbound))
         return res
 
+    def bundled_with_settled(self, n, o):
+        """Every claim of n for o that is still unconfirmed also spends an output whose spend by n itself had
+        been confirmed before that claim was made (it can never confirm)."""
+        mine = [x for t, x in self.txs.items() if x["by"] == n and not x["sweep"] and o in x["chan"] and t not in self.conf and x["ok"]]
+        def dead(x):
+            for i in x["chan"]:
+                sp = self.spender(i)
+                if i != o and sp is not None and self.txs[sp]["by"] == n and self.conf[sp] < x["bh"]:
+                    return True
+            return False
+        return bool(mine) and all(dead(x) for x in mine)
+
     def is_split_remainder(self, n, o):
         """o was part of an aggregated claim of n, another input of which a confirmed transaction of
         somebody else has spent."""
@@ -239,6 +251,8 @@ def classify(fail):
     unc = [(n, o) for n in v.live for o in v.uncovered(n)]
     if unc and all(v.is_split_remainder(n, o) and n in v.refused for n, o in unc):
         return "split_remainder_abandoned"
+    if unc and v.com and not v.com["revoked"] and all(n == v.com["owner"] and v.bundled_with_settled(n, o) for n, o in unc):
+        return "late_preimage_claim_bundled_with_settled_htlc"
     return None
 
 
@@ -527,15 +541,17 @@ def run_check(pid, tier, seed, assumptions):
     head = scripts[:cap * 2]
     rng.shuffle(head)
     conv = [convert_script(s, rng) for s in head[:cap]]
-    spath = os.path.join(wd, "scripts.ndjson")
-    _write(spath, conv)
+    spaths = []
+    for k in range(0, len(conv), 300):
+        spaths.append(os.path.join(wd, "scripts.ndjson" if k == 0 else "scripts%d.ndjson" % (k // 300 + 1)))
+        _write(spaths[-1], conv[k:k + 300])
 
     # ---- the real code
     nrand = 6000 if thorough else 330
     # (several moderate batches rather than one large one: after every rejected run -- known findings
     #  included -- the rest of its batch is validated again)
     chunk = 1000 if thorough else nrand
-    batches = [("tlc", ["--scripts", spath])]
+    batches = [("tlc" if k == 0 else "tlc%d" % (k + 1), ["--scripts", sp]) for k, sp in enumerate(spaths)]
     batches += [("random" if k == 0 else "random%d" % (k + 1), ["--random", chunk, "--profile", prof]) for k in range(nrand // chunk)]
     if pid == "C07":
         # late preimages followed by a reorganisation of the tip and rebroadcast requests
